@@ -295,7 +295,7 @@ const (
 // ProgSource builds the program that pushes a JSON value across `as T` or an annotated let inside
 // try/catch, with state before and a continuation after.
 func ProgSource(route string, t vu.Type, jsonText string) string {
-	var crossing string
+	var pre, crossing string
 	if route == "as" {
 		crossing = fmt.Sprintf("let x = '%s'.parse_json() as %s;", jsonText, t.Src())
 	} else if route == "letget" {
@@ -303,9 +303,20 @@ func ProgSource(route string, t vu.Type, jsonText string) string {
 	} else {
 		crossing = fmt.Sprintf("let x: %s = '%s'.parse_json();", t.Src(), jsonText)
 	}
-	return "fn main() {\n" +
+	return progFrame("", pre, crossing, t)
+}
+
+// progFrame is the program around a crossing: state before, the crossing inside try/catch with a
+// probe of the admitted value, a continuation after. fns are helper functions, pre are statements
+// that run before the try (outside the crossing).
+func progFrame(fns, pre, crossing string, t vu.Type) string {
+	if pre != "" {
+		pre = "    " + pre + "\n"
+	}
+	return fns + "fn main() {\n" +
 		"    let before = 41;\n" +
 		"    let keep = [1, 2, 3];\n" +
+		pre +
 		"    let r = try {\n" +
 		"        " + crossing + "\n" +
 		"        " + probeStmt(t) + "\n" +
@@ -339,11 +350,21 @@ func unwrapProbe(t vu.Type, v vu.Val) vu.Val {
 }
 
 func (j *judge) prog(q pairSpec) {
-	js, ok := vu.JSONText(q.V)
-	if !ok {
-		return
+	var text string
+	if j.p.Route == "letx" {
+		t, ok := LetxSource(j.p.Stmt, j.p.Form, j.p.T, q.V)
+		if !ok {
+			return
+		}
+		text = t
+	} else {
+		js, ok := vu.JSONText(q.V)
+		if !ok {
+			return
+		}
+		text = ProgSource(j.p.Route, j.p.T, js)
 	}
-	src := drive.Sources{"main": ProgSource(j.p.Route, j.p.T, js)}
+	src := drive.Sources{"main": text}
 	ao := drive.Analyze(src, "main", true)
 	if ao.Errors > 0 {
 		j.fail("harness", "analyze", q, "the generated program was not accepted: %s\n%s", ao.ErrorSummary(), src["main"])
